@@ -12,6 +12,14 @@
 (*   Final r, err    state of r at quiescence: blocked | rodone | dead |   *)
 (*                   lost (asleep in waitForHW, not a registered waiter)   *)
 (*   Quiet           quiescence reached (all writers done)                 *)
+(*   Cre   r, s, err, offs, hws, end, h0, h1   (creation rounds) reader r  *)
+(*                   was created at offset s WHILE SetHighWatermark(h1)    *)
+(*                   ran (HW before: h0) and, every other time, an Append; *)
+(*                   afterwards - nobody else running - the HW was set to  *)
+(*                   h1 + 1 and r was drained with a cancelled context:    *)
+(*                   offs = offsets handed out, hws = HighWatermark()      *)
+(*                   after each, end = how the drain ended ("cancelled" =  *)
+(*                   r would block now), hw = HighWatermark() afterwards   *)
 (* The predicates are those of Reader.tla (DelOK) on the history.          *)
 EXTENDS Integers, Sequences, FiniteSets, TLC, Json
 
@@ -39,6 +47,10 @@ Fail(kind, e, name) == PrintT(<<"FAIL", kind, e.t, l, e.a, name>>)
 Chk(ok, kind, e, name) == IF ok THEN TRUE ELSE Fail(kind, e, name)
 
 Owed(r, h) == {o \in 0..h : o >= st[r] /\ ~InSeq(o, dl[r])}
+
+\* the deliveries of a drained reader, one DelOK after the other (Reader.tla: C03_Run)
+RunOK(offs, hws, start) == \A i \in 1..Len(offs) :
+   DelOK(SubSeq(offs, 1, i - 1), SubSeq(offs, 1, i), start, hws[i])
 
 TraceNext ==
   /\ Trace[l].a # "End"
@@ -68,6 +80,17 @@ TraceNext ==
                   \* once SetHighWatermark(h) has returned the HW is at least h
                   \* (whoever else sets it at the same time)
                   /\ Chk(e.hw >= e.off, "P", e, "C03_HWMonotone")
+                  /\ UNCHANGED <<dl, st, fin>>
+             [] e.a = "Cre" ->
+                  /\ Chk(e.err = "", "P", e, "C03_ReaderFailed")
+                  /\ Chk(e.hw >= e.h1 + 1, "P", e, "C03_HWMonotone")
+                  /\ Chk(RunOK(e.offs, e.hws, e.s), "P", e, "C03_Delivery")
+                  \* the drain ends because the reader would block - never with an error
+                  \* (the log is not read-only in these rounds)
+                  /\ Chk(e.err = "" => e.end = "cancelled", "P", e, "C03_ReaderFailed")
+                  \* and then nothing committed at or after its position is owed to it
+                  /\ Chk((e.err = "" /\ e.end = "cancelled") =>
+                             {o \in e.s..e.hw : ~InSeq(o, e.offs)} = {}, "P", e, "C03_Quiescent")
                   /\ UNCHANGED <<dl, st, fin>>
              [] e.a = "Final" ->
                   /\ fin' = [fin EXCEPT ![e.r] = e.err]
